@@ -80,9 +80,9 @@ Fixpoint list_eqb {A} (eqb : A -> A -> bool) (a b : list A) : bool :=
 
 (* position i: (special char, its bits), ('x', its bits), ('-', 0), anything else ValueError;
    compared with Model.special_bit on a string that has the character at position i *)
-Definition special_model (i : Z) : option (Z * Z * Z) :=
-  if i =? 2 then Some (115, 2112, 64) else if i =? 5 then Some (115, 1032, 8)
-  else if i =? 8 then Some (116, 512, 1) else None.
+Definition special_model (i : Z) : option (Z * Z * Z * Z * Z) :=
+  if i =? 2 then Some (115, 2112, 64, 83, 2048) else if i =? 5 then Some (115, 1032, 8, 83, 1024)
+  else if i =? 8 then Some (116, 512, 1, 84, 512) else None.
 
 Definition special_check (sp : list (Z * list (Z * Z))) : bool :=
   Nat.eqb (length sp) 3
@@ -90,14 +90,14 @@ Definition special_check (sp : list (Z * list (Z * Z))) : bool :=
   && forallb (fun e =>
        match special_model (fst e) with
        | None => false
-       | Some (cs, vs, vx) =>
-           Nat.eqb (length (snd e)) 3
+       | Some (cs, vs, vx, cu, vu) =>
+           Nat.eqb (length (snd e)) 4
            && forallb (fun cv =>
-                match special_bit (repeat 0 (Z.to_nat (fst e)) ++ [fst cv]) (Z.to_nat (fst e)) cs vs vx with
+                match special_bit (repeat 0 (Z.to_nat (fst e)) ++ [fst cv]) (Z.to_nat (fst e)) cs vs vx cu vu with
                 | Ok v => v =? snd cv
                 | Exc _ => false
                 end) (snd e)
-           && list_eqb Z.eqb (map fst (snd e)) [cs; 120; 45]
+           && list_eqb Z.eqb (map fst (snd e)) [cs; 120; cu; 45]
        end) sp.
 
 (* the lister skips exactly the names for which the model's is_dot_name holds *)
@@ -111,6 +111,26 @@ Definition list_line_chain_modelled : list text :=
 Definition recursion_test_modelled : text :=
   [105; 110; 102; 111; 91; 39; 116; 121; 112; 101; 39; 93; 32; 61; 61; 32; 39; 100; 105; 114; 39; 32;
    97; 110; 100; 32; 114; 101; 99; 117; 114; 115; 105; 118; 101].
+
+(* the guards of the F12 repair, "<test>:<class raised>" as the translator prints them; the
+   unrepaired source yields the empty text (or the old windows test) and computes false *)
+Definition g_unix_modelled : text := [110; 111; 116; 32; 115; 58; 86; 97; 108; 117; 101; 69; 114; 114; 111; 114].
+Definition g_windows_modelled : text :=
+  [110; 111; 116; 32; 102; 105; 108; 101; 110; 97; 109; 101; 32; 111; 114; 32; 102; 105; 108; 101; 110; 97; 109; 101;
+   32; 61; 61; 32; 39; 46; 39; 32; 111; 114; 32; 102; 105; 108; 101; 110; 97; 109; 101; 32; 61; 61; 32; 39; 46; 46; 39;
+   58; 86; 97; 108; 117; 101; 69; 114; 114; 111; 114].
+Definition g_mlsx_targets_modelled : text :=
+  [40; 102; 97; 99; 116; 115; 95; 102; 111; 117; 110; 100; 44; 32; 115; 101; 112; 44; 32; 110; 97; 109; 101; 41].
+Definition g_mlsx_modelled : text :=
+  [110; 111; 116; 32; 115; 101; 112; 32; 111; 114; 32; 110; 111; 116; 32; 110; 97; 109; 101; 58; 86; 97; 108; 117;
+   101; 69; 114; 114; 111; 114].
+Definition g_type_modelled : text :=
+  [39; 116; 121; 112; 101; 39; 32; 110; 111; 116; 32; 105; 110; 32; 105; 110; 102; 111; 58; 86; 97; 108; 117; 101; 69;
+   114; 114; 111; 114].
+
+Definition repair_guards_check (gu gw mt gm gt : text) : bool :=
+  text_eqb gu g_unix_modelled && text_eqb gw g_windows_modelled && text_eqb mt g_mlsx_targets_modelled
+  && text_eqb gm g_mlsx_modelled && text_eqb gt g_type_modelled.
 
 Definition parser_facts_check
   (ok : bool) (chain funnel_names : list text) (handler final : text)
@@ -133,6 +153,21 @@ Proof.
   unfold parser_facts_check. intro H. repeat (apply andb_true_iff in H as [H ?]).
   apply funnel_check_sound. assumption.
 Qed.
+
+(* the unrepaired shapes compute false (reverting the F12 / F13b repairs is detected) *)
+Example unrepaired_guards_fail :
+  repair_guards_check []
+    [102; 105; 108; 101; 110; 97; 109; 101; 32; 61; 61; 32; 39; 46; 39; 32; 111; 114; 32; 102; 105; 108; 101; 110; 97;
+     109; 101; 32; 61; 61; 32; 39; 46; 46; 39; 58; 86; 97; 108; 117; 101; 69; 114; 114; 111; 114]
+    [40; 102; 97; 99; 116; 115; 95; 102; 111; 117; 110; 100; 44; 32; 95; 44; 32; 110; 97; 109; 101; 41] [] [] = false.
+Proof. vm_compute. reflexivity. Qed.
+Example unrepaired_type_guard_fails :
+  repair_guards_check g_unix_modelled g_windows_modelled g_mlsx_targets_modelled g_mlsx_modelled [] = false.
+Proof. vm_compute. reflexivity. Qed.
+Example unrepaired_special_bits_fail :
+  special_check [(2, [(115, 2112); (120, 64); (45, 0)]); (5, [(115, 1032); (120, 8); (45, 0)]);
+                 (8, [(116, 512); (120, 1); (45, 0)])] = false.
+Proof. vm_compute. reflexivity. Qed.
 
 (* the readers are not vacuous: each of these variants of the source fails the check *)
 Example funnel_without_index_error : funnel_check [n_ValueError; n_KeyError] = false.
